@@ -14,8 +14,30 @@ DOMAIN = ["float numeric interpretation and UTF-16 encoding of expected strings 
 
 
 def c01_extra(rep, rnd, first_id):
+    from harness import absyn as A
+
     n = 12000 if rep.tier == "thorough" else 700
-    return codec.value_batch(n, rnd.randrange(1 << 30), first_id=first_id)
+    out = codec.value_batch(n, rnd.randrange(1 << 30), first_id=first_id)
+    # unions whose largest member is smaller than the (aligned) union: the writer pads them to their size - also when they are
+    # not written at position 0 (array elements, members behind a dynamic member; seed S110).  Parsed values, dumped, re-parsed.
+    u8 = A.t_int("uint8")
+    for _ in range(300 if rep.tier == "thorough" else 40):
+        big, small, cnt = rnd.choice([("uint64", "uint32", 3), ("uint32", "uint8", 5), ("uint16", "uint8", 3), ("uint64", "uint16", 5)])
+        un = A.t_struct("UP", [A.field("a", A.t_int(big)), A.field("b", A.t_arr(A.t_int(small), A.L_fixed(cnt)))], union=True)
+        shape = rnd.randrange(3)
+        if shape == 0:
+            t = A.t_struct("UPH", [A.field("tag", A.t_int("uint16")), A.field("items", A.t_arr(un, A.L_fixed(3))), A.field("end", A.t_int("uint16"))])
+        elif shape == 1:
+            t = A.t_struct("UPH", [A.field("n", u8), A.field("s", A.t_arr(A.t_char(), A.L_expr({"k": "id", "name": "n"}))), A.field("u", un),
+                                   A.field("t", A.t_arr(u8, A.L_fixed(2)))])
+        else:
+            t = A.t_struct("UPH", [A.field("n", u8), A.field("v", A.t_arr(un, A.L_expr({"k": "id", "name": "n"}))), A.field("t", u8)])
+        mode = {"endian": rnd.choice("<>"), "align": True, "ptr": 8}
+        scn = {"type": t, "mode": mode, "consts": {}, "defs": A.render(t, {})}
+        start = rnd.choice([0, 0, 8])
+        data = bytes(start) + bytes([rnd.choice([1, 2, 3])]) + bytes(rnd.randrange(1, 256) for _ in range(120))
+        out.append(codec.parse_record(first_id + len(out), scn, data, start, rnd.random() < 0.5, both=True))
+    return out
 
 
 CHECKS["C01"] = CodecCheck(
@@ -211,7 +233,15 @@ def c04_extra(rep, rnd, first_id):
                               first_id=first_id)
     cabi = codec.ctypes_records(3000 if rep.tier == "thorough" else 300, rnd.randrange(1 << 30), first_id=first_id + n)
     rep.extra["ctypes_layouts_validating_the_spec"] = len(cabi)
-    return [codec.enrich(r, sizeof=True) for r in recs] + cabi
+    out = [codec.enrich(r, sizeof=True) for r in recs] + cabi
+    # a cstruct object that was used under another pointer width before (seed S113): pointer-heavy definitions loaded after the switch
+    r2 = random.Random(rnd.randrange(1 << 30))
+    for _ in range(600 if rep.tier == "thorough" else 60):
+        scn = codec.gen_scenario(r2, {"null": False, "eof": False, "expr": False, "leb": False, "w": (0.3, 0.35, 0.5, 0.95, 0.97)})
+        scn["mode"] = dict(scn["mode"], preload_ptr=r2.choice([w for w in (1, 2, 4, 8) if w != scn["mode"]["ptr"]]))
+        start = codec.start_for(r2, scn)
+        out.append(codec.enrich(codec.parse_record(first_id + n + 5000 + len(out), scn, codec.gen_input(r2, start, maxlen=90), start, r2.random() < 0.5), sizeof=True))
+    return out
 
 
 CHECKS["C04"] = CodecCheck(
